@@ -13,6 +13,8 @@ def run(chk):
         case['iters'] = rng.choice([3, 10, 40, 80])
         if _ % 3 == 1:
             case['start'] = H.random_start(rng, case['lo'], case['hi'])
+        if _ % 4 == 1:
+            case['refine_at'] = rng.choice([3, 6]); case['refine_iters'] = 30      # a refinement, then the global search goes on: every later trial is recorded
         if _ % 4 == 2:
             case['discrete'] = rng.choice([1, 2])      # a problem that also declares discrete parameters (ignored by this version)
         if _ % 4 == 3 and case['n'] >= 2:
@@ -41,7 +43,10 @@ def run(chk):
         case = A.random_case(rng, dims=(1, 2, 3))
         case['iters'] = rng.choice([12, 25, 40]); case['eps'] = 1e-9
         case['exc'] = rng.choice(['RuntimeError', 'ValueError', 'ZeroDivisionError'])
-        if _ % 2:
+        if _ % 4 == 3:      # +inf on a slab (an infeasibility marker): such evaluations are failures, never records
+            a = case['lo'][0] + (case['hi'][0] - case['lo'][0]) * rng.uniform(0.55, 0.8)
+            case['inf_region'] = [0, a, a + (case['hi'][0] - case['lo'][0]) * rng.uniform(0.05, 0.15)]
+        elif _ % 2:
             a = case['lo'][0] + (case['hi'][0] - case['lo'][0]) * rng.uniform(0.55, 0.8)
             case['fail_region'] = [0, a, a + (case['hi'][0] - case['lo'][0]) * rng.uniform(0.05, 0.15)]
         else:
